@@ -73,12 +73,17 @@ pub fn c17(ctx: &mut Ctx, acc: &mut Acc) -> i32 {
     acc.evaluations += chars;
     acc.distinct_extra += chars;
     acc.add("unicode_scalars_checked", chars);
+    if let Some(c) = char::from_u32(lo.max(0x41)) {
+        acc.sample(J::obj().with("char", J::u(c as u32)).with("outcome", J::s(ser(&c).class())));
+    }
 
     if ctx.shard == 0 {
         // (b) lengths that do not fit the format's 31-bit counts (zero-sized elements: no memory needed)
         for n in [i32::MAX as usize + 1, u32::MAX as usize, u32::MAX as usize + 1, usize::MAX] {
             let v: Vec<()> = vec![(); n];
-            judge(acc, "Vec<()>_too_long", &ser(&v), Some("LengthTooLarge"), J::obj().with("len", J::u(n as u64)));
+            let got = ser(&v);
+            acc.sample(J::obj().with("value", J::s(format!("Vec<()> of length {n}"))).with("outcome", J::s(got.class())));
+            judge(acc, "Vec<()>_too_long", &got, Some("LengthTooLarge"), J::obj().with("len", J::u(n as u64)));
             judge(acc, "slice_of_()_too_long", &ser(&&v[..]), Some("LengthTooLarge"), J::obj().with("len", J::u(n as u64)));
             let it = monitored(None, || {
                 let mut sc = SerializationContext::new(Vec::new());
